@@ -608,6 +608,20 @@ func (env *Env) call(n *Node) *Value {
 	case "iszerotime":
 		return term(eq(arg(0).T, timeZeroNs), sBool, boolT)
 	}
+	// contract-language predicate: expand with arguments bound
+	if pd := e.ct.Preds[n.Name]; pd != nil {
+		if len(pd.Params) != len(n.Kids) {
+			env.fail("pred %s expects %d arguments", n.Name, len(pd.Params))
+		}
+		sub := &Env{f: env.f, names: map[string]*Value{}, bound: env.bound, st: env.st, old: env.old, fnPkg: env.fnPkg}
+		for i, prm := range pd.Params {
+			sub.names[prm.Name] = arg(i)
+		}
+		if pkg := e.pkgOfFile(pd.File); pkg != nil {
+			sub.fnPkg = pkg
+		}
+		return sub.eval(pd.Body)
+	}
 	// spec function
 	if sf := e.ct.Specs[n.Name]; sf != nil {
 		if len(sf.Params) != len(n.Kids) {
@@ -773,3 +787,17 @@ func (env *Env) targets(n *Node) []target {
 }
 
 var _ = ssa.BuilderMode(0)
+
+// pkgOfFile finds the loaded package whose directory contains a contracts file.
+func (e *Encoder) pkgOfFile(file string) *types.Package {
+	dir := file[:strings.LastIndex(file, "/")]
+	for _, p := range e.prog.SSA.AllPackages() {
+		if p.Pkg != nil && strings.HasPrefix(p.Pkg.Path(), "github.com/google/mtail/") {
+			rel := strings.TrimPrefix(p.Pkg.Path(), "github.com/google/mtail")
+			if strings.HasSuffix(dir, rel) {
+				return p.Pkg
+			}
+		}
+	}
+	return nil
+}
